@@ -53,7 +53,11 @@ PROP = dict(
         "programs over the data fragment of C06 (no closures, imports, randomness, time); orderby with tied keys is exempt (documented "
         "order-dependent) and excluded from the cross-process comparison",
         "sets that superimpose two sugar tuples at one index are excluded (KF-superimposed: genuine order dependence, witness theorem)",
-        "unary minus over char/byte tuples is not generated (a negated @char is a hole marker: C05/C01)"],
+        "unary minus over char/byte tuples is not generated (a negated @char is a hole marker: C05/C01)",
+        "a third of the programs pick 'an element' or depend on 'the first element' of an enumeration (set patterns in let and cond, "
+        "rank with 2-3 ranking attributes and many ties, orderby with tied keys mapped to its keys, max/min, nest) over collections "
+        "of 12-18 members (frozen keeps up to ~8 items in insertion order); they are predicted under the identity order and are "
+        "outside the theorems - the N-process run is their tie, error outcomes included"],
     level_text="Proof (partial): 13 Lean theorems over the C06 representation model - sorting by the C06 order is invariant under "
                "permutation of the input, the canonical key of generic sets, union sets and relations depends only on the multiset of "
                "member keys, orderby without ties is enumeration-independent (with ties only tied members swap), the set builder is "
